@@ -1094,8 +1094,7 @@ theorem coordToHandle_C (F : EFib) (hF : FibFacts F) (hC : F.fmt = .C) (q : Int)
   simp only [EFib.coordToHandle, hC, hc]
   exact c2hC_lowerHandle F.ecoords hF.inc q
 
-theorem getSize_facts (F : EFib) (hF : FibFacts F) :
-    F.getSize = if F.sizeAsserts then none else some F.words := by
+theorem getSize_facts (F : EFib) (hF : FibFacts F) : F.getSize = some F.words := by
   obtain ⟨hn, hc, _, _, _, hocc, hval, hnp⟩ := hF
   have hclen : F.fmt = .C → F.coords.length = F.n := by
     intro h; rw [hc, h, hn]; rfl
@@ -1107,37 +1106,32 @@ theorem getSize_facts (F : EFib) (hF : FibFacts F) :
     cases hnx : F.next with
     | none =>
       rw [hnx] at hocc hnp
-      simp only [EFib.getSize, EFib.words, EFib.sizeAsserts, EFib.isLeaf, hf, hnx, hocc, hnp]
-      by_cases h0 : F.n = 0 <;> simp [h0]
+      simp [EFib.getSize, EFib.words, EFib.isLeaf, hf, hnx, hocc, hnp]
     | some g =>
       rw [hnx] at hocc hnp
-      simp only [EFib.getSize, EFib.words, EFib.sizeAsserts, EFib.isLeaf, hf, hnx, hocc, hnp]
-      by_cases h0 : F.n = 0 <;> cases g.explicit <;> simp [h0]
+      simp only [EFib.getSize, EFib.words, EFib.isLeaf, hf, hnx, hocc, hnp]
+      cases g.explicit <;> simp
   | C =>
     have hl := hclen hf
     rw [hf] at hnp
     cases hnx : F.next with
     | none =>
       rw [hnx] at hocc hnp
-      simp only [EFib.getSize, EFib.words, EFib.sizeAsserts, hf, hnx, hocc, hnp, hl]
-      simp
+      simp [EFib.getSize, EFib.words, hf, hnx, hocc, hnp, hl]
     | some g =>
       rw [hnx] at hocc hnp
-      simp only [EFib.getSize, EFib.words, EFib.sizeAsserts, hf, hnx, hocc, hnp, hl]
-      by_cases h0 : F.n = 0 <;> cases g.explicit <;> simp [h0]
+      simp only [EFib.getSize, EFib.words, hf, hnx, hocc, hnp, hl]
+      cases g.explicit <;> simp
   | B =>
     have hl := hblen hf
     rw [hf] at hnp
     cases hnx : F.next with
     | none =>
       rw [hnx] at hocc hnp
-      simp only [EFib.getSize, EFib.words, EFib.sizeAsserts, hf, hnx, hocc, hnp, hl]
-      simp
+      simp [EFib.getSize, EFib.words, hf, hnx, hocc, hnp, hl]
     | some g =>
       rw [hnx] at hocc hnp
-      simp only [EFib.getSize, EFib.words, EFib.sizeAsserts, hf, hnx, hocc, hnp, hl]
-      cases g.explicit <;> simp
-
+      simp only [EFib.getSize, EFib.words, hf, hnx, hocc, hnp, hl]
 
 /-- the k-th coordinate of `l` paired with payload handle `k`, counting from `k0` -/
 def specFrom (l : List Int) (k0 : Nat) : List (Option Int × Option Nat) :=
@@ -1147,7 +1141,24 @@ theorem specFrom_cons (c : Int) (l : List Int) (k : Nat) :
     specFrom (c :: l) k = (some c, some k) :: specFrom l (k + 1) := by
   simp [specFrom, List.zipIdx_cons]
 
-theorem scanSpec_eq (F : EFib) : F.scanSpec = specFrom F.layoutCoords 0 := rfl
+/-- … with the payload handles starting at `b` -/
+def cd_specFromB (b : Nat) (l : List Int) (k0 : Nat) : List (Option Int × Option Nat) :=
+  (l.zipIdx k0).map (fun e => (some e.1, some (b + e.2)))
+
+theorem cd_specFromB_cons (b : Nat) (c : Int) (l : List Int) (k : Nat) :
+    cd_specFromB b (c :: l) k = (some c, some (b + k)) :: cd_specFromB b l (k + 1) := by
+  simp [cd_specFromB, List.zipIdx_cons]
+
+theorem cd_specFromB_zero (l : List Int) (k0 : Nat) : cd_specFromB 0 l k0 = specFrom l k0 := by
+  simp [cd_specFromB, specFrom]
+
+theorem scanSpec_eq (F : EFib) : F.scanSpec = cd_specFromB F.payBase F.layoutCoords 0 := rfl
+
+theorem cd_payBase_zero (F : EFib) (h : ¬ (F.fmt = .C ∧ F.next = some .U)) : F.payBase = 0 := by
+  simp only [EFib.payBase]; rw [if_neg h]
+
+theorem cd_payBase_CU (F : EFib) (h1 : F.fmt = .C) (h2 : F.next = some .U) : F.payBase = F.osf := by
+  simp only [EFib.payBase]; rw [if_pos ⟨h1, h2⟩]
 
 /-- U: handles `h … shape-1`, coordinate = payload handle = position -/
 theorem scanFrom_U (F : EFib) (hU : F.fmt = .U) (hnp : F.npay = F.shape) (m h : Nat) (hm : h + m = F.shape) :
@@ -1191,24 +1202,24 @@ theorem scanFrom_C (F : EFib) (hC : F.fmt = .C) (hnu : F.next ≠ some .U) (m h 
     simp only [hC, hp]
     rw [if_neg (by omega)]
 
-/-- C above U: every handle maps to `occupancy_so_far` -/
+/-- C above U: handle `h` maps to `occupancy_so_far + h` -/
 theorem scanFrom_CU (F : EFib) (hC : F.fmt = .C) (hnu : F.next = some .U) (m h : Nat)
     (hm : h + m = F.coords.length) :
-    scanFrom F F.coords.length h = (F.coords.drop h).map (fun c => (some c, some F.osf)) := by
+    scanFrom F F.coords.length h = cd_specFromB F.osf (F.coords.drop h) h := by
   have hsub : F.coords.length - h = m := by omega
   rw [scanFrom, hsub]
   clear hsub
   induction m generalizing h with
   | zero =>
     have : F.coords.drop h = [] := List.drop_eq_nil_of_le (by omega)
-    simp [this, scanN]
+    simp [this, scanN, cd_specFromB]
   | succ m ih =>
     have hlt : h < F.coords.length := by omega
     have hd : F.coords.drop h = F.coords.getD h 0 :: F.coords.drop (h + 1) := by
       rw [List.drop_eq_getElem_cons hlt]
       simp [List.getD_eq_getElem?_getD, hlt]
-    rw [scanN, hd, List.map_cons, ih (h + 1) (by omega)]
-    have hp : F.handleToPayload h = some F.osf := by
+    rw [scanN, hd, cd_specFromB_cons, ih (h + 1) (by omega)]
+    have hp : F.handleToPayload h = some (F.osf + h) := by
       simp only [EFib.handleToPayload, hC, hnu]; rfl
     simp only [hC, hp]
     rw [if_neg (by omega)]
@@ -1269,9 +1280,9 @@ theorem layoutCoords_facts (F : EFib) (hF : FibFacts F) : F.layoutCoords = F.eco
 
 /-- scanning an encoded fiber through its handle interface yields its layout coordinates in
     order, the k-th with payload handle k — except for C above U -/
-theorem scan_facts (F : EFib) (hF : FibFacts F) (hcu : ¬ (F.fmt = .C ∧ F.next = some .U)) :
+theorem cd_scan_facts_nonCU (F : EFib) (hF : FibFacts F) (hcu : ¬ (F.fmt = .C ∧ F.next = some .U)) :
     F.scan = F.scanSpec := by
-  rw [scanSpec_eq]
+  rw [scanSpec_eq, cd_payBase_zero F hcu, cd_specFromB_zero]
   cases hf : F.fmt with
   | U =>
     have hsh : F.n = F.shape := by rw [hF.n_eq, hF.dense hf]; simp [irange]
@@ -1315,10 +1326,11 @@ theorem scan_facts (F : EFib) (hF : FibFacts F) (hcu : ¬ (F.fmt = .C ∧ F.next
     apply scanBits_spec F hf F.coords (by rw [hc]; exact maskOf_01 _ _) 0 0
     rw [← maskCoords_eq_from, hmc, hnp, hF.n_eq]; simp
 
-/-- C above U: the coordinates are right, every payload handle is `occupancy_so_far` -/
+/-- C above U: the k-th coordinate with payload `occupancy_so_far + k` -/
 theorem scan_CU_facts (F : EFib) (hF : FibFacts F) (hf : F.fmt = .C) (hnu : F.next = some .U) :
-    F.scan = F.ecoords.map (fun c => (some c, some F.osf)) := by
+    F.scan = F.scanSpec := by
   have hc : F.coords = F.ecoords := by rw [hF.coords_eq, hf]; rfl
+  rw [scanSpec_eq, cd_payBase_CU F hf hnu, layoutCoords_facts F hF]
   simp only [EFib.scan, EFib.coordToHandle, hf]
   rw [hc, c2hC_lowerHandle F.ecoords hF.inc 0]
   have hlb : (F.ecoords.takeWhile (fun c => decide (c < 0))).length = 0 := by
@@ -1337,44 +1349,170 @@ theorem scan_CU_facts (F : EFib) (hF : FibFacts F) (hf : F.fmt = .C) (hnu : F.ne
     simpa using this
   · rw [if_neg h0]
     have : F.ecoords = [] := List.length_eq_zero_iff.1 (by omega)
-    simp [this]
+    simp [this, cd_specFromB]
 
+/-- scanning an encoded fiber through its handle interface yields its layout coordinates in
+    order, the k-th with payload handle `payBase + k` -/
+theorem scan_facts (F : EFib) (hF : FibFacts F) : F.scan = F.scanSpec := by
+  by_cases hcu : F.fmt = .C ∧ F.next = some .U
+  · exact scan_CU_facts F hF hcu.1 hcu.2
+  · exact cd_scan_facts_nonCU F hF hcu
 
 theorem mem_zipIdx_lt {α : Type} (l : List α) (e : α × Nat) (h : e ∈ l.zipIdx) : e.2 < l.length := by
   have := List.mem_zipIdx h
   omega
 
 /-- … and with every payload handle resolved (leaf: `payloadToValue`, above: the child fiber
-    it designates) the scan yields the fiber's elements — except for C above U -/
-theorem scanElems_facts (F : EFib) (hF : FibFacts F) (hcu : ¬ (F.fmt = .C ∧ F.next = some .U)) :
+    it designates) the scan yields the fiber's elements; for C above U this needs that the
+    fiber's `occupancy_so_far` is the next-rank position of its first child -/
+theorem scanElems_facts (F : EFib) (hF : FibFacts F)
+    (hosf : F.fmt = .C → F.next = some .U → F.osf = F.kid0) :
     F.scanElems = F.elemsSpec := by
-  simp only [EFib.scanElems, scan_facts F hF hcu, EFib.scanSpec, layoutCoords_facts F hF, EFib.elemsSpec,
+  simp only [EFib.scanElems, scan_facts F hF, EFib.scanSpec, layoutCoords_facts F hF, EFib.elemsSpec,
     List.map_map]
   apply List.map_congr_left
   intro e he
   have hk : e.2 < F.n := by rw [hF.n_eq]; exact mem_zipIdx_lt _ _ he
   simp only [Function.comp, EFib.resolve]
-  cases hnx : F.next with
-  | none =>
-    have hnp : F.npay = F.n := by
-      rw [hF.npay_eq, hnx]; cases F.fmt <;> rfl
-    simp only [hnp]
-    rw [if_neg (by omega)]
-  | some g =>
-    have hnp : F.npay = F.n := by
-      rw [hF.npay_eq, hnx]
-      cases hf : F.fmt with
-      | U => rfl
-      | B => rfl
-      | C =>
-        cases g with
-        | U => exact absurd ⟨hf, hnx⟩ hcu
-        | C => rfl
+  by_cases hcu : F.fmt = .C ∧ F.next = some .U
+  · rw [cd_payBase_CU F hcu.1 hcu.2, hcu.2]
+    simp [hcu.1, hosf hcu.1 hcu.2]
+  · rw [cd_payBase_zero F hcu, Nat.zero_add]
+    cases hnx : F.next with
+    | none =>
+      have hnp : F.npay = F.n := by
+        rw [hF.npay_eq, hnx]; cases F.fmt <;> rfl
+      simp only [hnp]
+      rw [if_neg (by omega)]
+    | some g =>
+      have hnp : F.npay = F.n := by
+        rw [hF.npay_eq, hnx]
+        cases hf : F.fmt with
+        | U => rfl
         | B => rfl
-    simp only [hnp]
-    have hne : ¬ (F.fmt = .C ∧ g = .U) := by
-      intro h; exact hcu ⟨h.1, by rw [hnx, h.2]⟩
-    rw [if_neg hne, if_pos hk]
+        | C =>
+          cases g with
+          | U => exact absurd ⟨hf, hnx⟩ hcu
+          | C => rfl
+          | B => rfl
+      simp only [hnp]
+      have hne : ¬ (F.fmt = .C ∧ g = .U) := by
+        intro h; exact hcu ⟨h.1, by rw [hnx, h.2]⟩
+      rw [if_neg hne, if_pos hk]
+
+/-! ### rank counters: occupancy_so_far is the position of the first child -/
+
+/-- the rank counters are consistent: below a C or B rank every element owns exactly one fiber
+    of the next rank, so the elements counted so far (`occupancy_so_far` of the next fiber) are
+    the fibers of the next rank counted so far -/
+def cd_CntInv : List Fmt → Cnt → Prop
+  | [], _ => True
+  | [_], _ => True
+  | f :: g :: fs, cnt =>
+    (f ≠ .U → (cnt.headD (0, 0)).2 = (cnt.tail.headD (0, 0)).1) ∧ cd_CntInv (g :: fs) cnt.tail
+
+/-- `occupancy_so_far` of a non-leaf C/B fiber is the next-rank position of its first child -/
+def cd_OsfFact (F : EFib) : Prop := F.fmt ≠ .U → F.next ≠ none → F.osf = F.kid0
+
+theorem cd_CntInv_replicate : ∀ (fs : List Fmt) (n : Nat), cd_CntInv fs (List.replicate n (0, 0))
+  | [], _ => trivial
+  | [_], _ => trivial
+  | f :: g :: fs, n => by
+    refine ⟨?_, ?_⟩
+    · intro _
+      cases n with
+      | zero => rfl
+      | succ n => cases n <;> rfl
+    · cases n with
+      | zero => exact cd_CntInv_replicate (g :: fs) 0
+      | succ n => exact cd_CntInv_replicate (g :: fs) n
+
+theorem cd_encKids_inv {α : Type} (I : Cnt → Prop) (P : EFib → Prop) (k : Nat) (enc1 : Cnt → α → Res)
+    (h1 : ∀ cnt x, I cnt → I (enc1 cnt x).cnt ∧
+        ((enc1 cnt x).cnt.headD (0, 0)).1 = (cnt.headD (0, 0)).1 + 1 ∧
+        ∀ F ∈ (enc1 cnt x).fibs.flatten, P F)
+    (xs : List α) (cnt : Cnt) (cum : Nat) (hI : I cnt) :
+    I (encKids k enc1 xs cnt cum).cnt ∧
+    ((encKids k enc1 xs cnt cum).cnt.headD (0, 0)).1 = (cnt.headD (0, 0)).1 + xs.length ∧
+    ∀ F ∈ (encKids k enc1 xs cnt cum).fibs.flatten, P F := by
+  induction xs generalizing cnt cum with
+  | nil => refine ⟨hI, rfl, ?_⟩; intro F hF; simp [encKids] at hF
+  | cons x xs ih =>
+    obtain ⟨h1a, h1b, h1c⟩ := h1 cnt x hI
+    obtain ⟨iha, ihb, ihc⟩ := ih (enc1 cnt x).cnt (cum + (enc1 cnt x).occ) h1a
+    refine ⟨iha, ?_, ?_⟩
+    · show ((encKids k enc1 xs (enc1 cnt x).cnt (cum + (enc1 cnt x).occ)).cnt.headD (0, 0)).1 = _
+      rw [ihb, h1b, List.length_cons]; omega
+    · intro F hF
+      simp only [encKids] at hF
+      rcases mem_flatten_zipApp _ _ F hF with h | h
+      · exact h1c F h
+      · exact ihc F h
+
+theorem cd_encF_zero_cnt (f : Fmt) (fs' : List Fmt) (tsh : List Nat) (ish : Option (List Nat)) (pidx : Nat) (cnt : Cnt)
+    (a : List (Int × Int)) :
+    ((encF 0 (f :: fs') tsh ish pidx cnt a).cnt.headD (0, 0)).1 = (cnt.headD (0, 0)).1 + 1 := rfl
+
+theorem cd_encF_succ_cnt (d : Nat) (f : Fmt) (fs' : List Fmt) (tsh : List Nat) (ish : Option (List Nat))
+    (pidx : Nat) (cnt : Cnt) (a : List (Int × Tree Int Int (d + 1))) :
+    (encF (d + 1) (f :: fs') tsh ish pidx cnt a).cnt =
+      ((cnt.headD (0, 0)).1 + 1,
+       (cnt.headD (0, 0)).2 + (match f with
+         | .U => pidx
+         | _ => (elemsOf f (dimOf tsh ish) (emptyT d) (isEmpty (κ := Int) (0 : Int) (d + 1)) a).length)) ::
+      (encKids (d + 1) (encF d fs' tsh.tail (ishNext f ish) (cnt.headD (0, 0)).1)
+        ((elemsOf f (dimOf tsh ish) (emptyT d) (isEmpty (κ := Int) (0 : Int) (d + 1)) a).map (·.2)) cnt.tail 0).cnt := rfl
+
+/-- the encoder keeps the rank counters consistent, advances its own rank's fiber count by one,
+    and every fiber object it creates has its `occupancy_so_far` equal to its first child's position -/
+theorem cd_encF_cnt (d : Nat) : ∀ (fs : List Fmt) (tsh : List Nat) (ish : Option (List Nat)) (pidx : Nat) (cnt : Cnt)
+    (a : List (Int × Tree Int Int d)), fs.length = d + 1 → cd_CntInv fs cnt →
+    cd_CntInv fs (encF d fs tsh ish pidx cnt a).cnt ∧
+    ((encF d fs tsh ish pidx cnt a).cnt.headD (0, 0)).1 = (cnt.headD (0, 0)).1 + 1 ∧
+    ∀ F ∈ (encF d fs tsh ish pidx cnt a).fibs.flatten, cd_OsfFact F := by
+  induction d with
+  | zero =>
+    intro fs tsh ish pidx cnt a hfs hI
+    match fs, hfs with
+    | [f], _ =>
+    have key : ∀ (a : List (Int × Int)),
+        cd_CntInv [f] (encF 0 [f] tsh ish pidx cnt a).cnt ∧
+        ((encF 0 [f] tsh ish pidx cnt a).cnt.headD (0, 0)).1 = (cnt.headD (0, 0)).1 + 1 ∧
+        ∀ F ∈ (encF 0 [f] tsh ish pidx cnt a).fibs.flatten, cd_OsfFact F := by
+      intro a
+      refine ⟨trivial, rfl, ?_⟩
+      intro F hF
+      rw [encF_zero_fibs] at hF
+      simp only [List.flatten_cons, List.flatten_nil, List.append_nil, List.mem_singleton] at hF
+      subst hF
+      intro _ h; exact absurd rfl h
+    exact key a
+  | succ d ih =>
+    intro fs tsh ish pidx cnt a hfs hI
+    match fs, hfs with
+    | f :: g :: fs'', hfs' =>
+    have hfs'' : (g :: fs'').length = d + 1 := by simpa using hfs'
+    obtain ⟨hI1, hI2⟩ := hI
+    obtain ⟨els, hels⟩ : ∃ els, els = elemsOf f (dimOf tsh ish) (emptyT d) (isEmpty (κ := Int) (0 : Int) (d + 1)) a := ⟨_, rfl⟩
+    have hK := cd_encKids_inv (cd_CntInv (g :: fs'')) cd_OsfFact (d + 1)
+      (encF d (g :: fs'') tsh.tail (ishNext f ish) (cnt.headD (0, 0)).1)
+      (fun c x hc => ih (g :: fs'') tsh.tail (ishNext f ish) _ c x hfs'' hc)
+      (els.map (·.2)) cnt.tail 0 hI2
+    obtain ⟨hKa, hKb, hKc⟩ := hK
+    rw [cd_encF_succ_cnt, encF_succ_fibs, ← hels]
+    refine ⟨⟨?_, hKa⟩, rfl, ?_⟩
+    · intro hne
+      show (cnt.headD (0, 0)).2 + _ = _
+      simp only [List.tail_cons, List.headD_cons] at hKb ⊢
+      rw [hKb, hI1 hne, List.length_map]
+    · intro F hF
+      rw [List.flatten_cons, List.mem_append] at hF
+      rcases hF with hF | hF
+      · simp only [List.mem_singleton] at hF
+        subst hF
+        intro hne _
+        exact hI1 hne
+      · exact hKc F hF
 
 
 end Codec
